@@ -4,7 +4,7 @@ cd "$(dirname "$0")" || exit 1
 rc=0
 cd spec
 for m in Manager_Trace MC_Routing MC_Identity MC_Failures MC_Stats MC_Hostile ClientSys_Trace ClientRead_Trace MC_Layout MC_Imports HashCanon MC_Defs \
-         Validation_Trace Codec_Trace DataLogger_Trace; do
+         Validation_Trace Codec_Trace DataLogger_Trace ClientSend ClientIdent WebProxy LoggerCtl; do
   if [ -f "$m.tla" ]; then
     if ! tla-sany "$m.tla" > /tmp/sany_$$.log 2>&1; then echo "SANY failed on $m"; tail -5 /tmp/sany_$$.log; rc=1; fi
   fi
